@@ -10,7 +10,38 @@ PROFILES = [('waiters', 0.5), ('core', 0.2), ('timeouts', 0.15), ('count', 0.1),
 MONITORS = ['C04', 'PANIC']
 
 
+def long_queues(rng, cid0):
+    """queues long enough to leave the inline array (> 143 waiters with this runtime's slice growth) and then switch to
+    the priority ring when a request of another priority arrives; afterwards the holds are handed over one by one so
+    that the grant order is observed (FIFO among equals, higher priority first)."""
+    cases = []
+    for j in range(2):
+        n = rng.choice([150, 170, 230, 300])
+        key = rng.choice([5, 9])
+        lines = ["case %d 1000000 1 %d" % (cid0 + j, rng.choice([0, 1]))]
+        rid = 500000 + 1000 * j
+        lines.append("req 1 L %d 0 7000 %d 0 0 0 600 0 0 -" % (rid, key)); rid += 1
+        for i in range(n):
+            lines.append("req %d L %d 0 %d %d 0 500 0 600 0 0 -" % (1 + i % 3, rid, 7001 + i, key)); rid += 1
+            if i == 20 and j == 1:          # a cancelled waiter in the middle: tombstone carried through the switch
+                lines.append("req 1 U %d 2 %d %d 0 0 0 0 0 0 -" % (rid, 7001 + 10, key)); rid += 1
+        lines.append("req 2 L %d 0 9000 %d 16 500 0 600 0 %d -" % (rid, key, rng.choice([1, 2, 3]))); rid += 1
+        lines.append("req 2 L %d 0 9001 %d 0 500 0 600 0 0 -" % (rid, key)); rid += 1
+        for i in range(12):
+            lines.append("req 1 U %d 1 0 %d 0 0 0 0 0 0 -" % (rid, key)); rid += 1
+        lines.append("adv 0")
+        lines.append("role 1")
+        for i in range(n + 6):
+            lines.append("req 1 U %d 1 0 %d 0 0 0 0 0 0 -" % (rid, key)); rid += 1
+        for step in [1] * 3 + [700]:
+            lines += ["adv %d" % step, "sweept", "sweepe"]
+        lines += ["adv 1", "sweept", "sweepe"] * 12
+        lines.append("end")
+        cases.append(lines)
+    return cases
+
+
 def run(ctx):
     if getattr(ctx, "replay", None):
         return _engine.replay(ctx, 'C04', MONITORS)
-    return _engine.run_engine_check(ctx, 'C04', PROFILES, MONITORS, n_quick=500, n_thorough=20000)
+    return _engine.run_engine_check(ctx, 'C04', PROFILES, MONITORS, n_quick=500, n_thorough=20000, extra_cases=long_queues)
